@@ -146,6 +146,10 @@ func commentSafe(s string) string {
 }
 
 func (g *sgen) text(label string, maxRunes int, nonEmpty bool) string {
+	if g.o.MaxArray >= 1000 && label != "com" {
+		// "long arrays" apply to text as well: strings of a few KB
+		maxRunes = g.o.MaxArray / 2
+	}
 	n := g.t.Small(label+"-len", maxRunes)
 	if nonEmpty && n == 0 {
 		n = 1
